@@ -156,6 +156,30 @@ pub fn c10(ctx: &mut Ctx) {
     }
 }
 
+/// background — the instructions of ONE property (inventory::relevant) judged by their reference rows on every
+/// background the generic sweep knows: everything else empty, everything else populated, and everything populated
+/// except one component ("hollow": each of the nine stacks, INDEX, INPUT, OUTPUT, GRAPH, the bindings in turn), plus
+/// every operand-missing pattern. The property's own families enumerate its operands deeply on few backgrounds; this
+/// family does the opposite, so an instruction whose behaviour depends on a stack it should not look at is decided.
+pub fn background(ctx: &mut Ctx) {
+    let mut real = Real::new();
+    let prop = ctx.prop.clone();
+    let names: Vec<String> = real.names().into_iter().filter(|n| crate::inventory::relevant(&prop, n)).collect();
+    ctx.extra.push(("instructions".into(), crate::core::J::Int(names.len() as i64)));
+    let sw = Sweep {
+        names,
+        alpha: if ctx.tier_thorough { Alpha::boundary(false) } else { Alpha::tiny() },
+        reduced: Alpha::tiny(),
+        // the neighbourhood instructions take five operands: their product is thinned harder (C20's own families enumerate them)
+        cap_per_instr: if prop == "C20" { 300 } else if ctx.tier_thorough { 30_000 } else { 3_000 },
+        missing: true,
+        only_missing: false,
+        populated_too: true,
+        oracle: Oracle::Judge,
+    };
+    sweep::run(ctx, &mut real, &sw);
+}
+
 pub fn c01_step(ctx: &mut Ctx) {
     let mut real = Real::new();
     let names = real.names();
@@ -283,7 +307,7 @@ pub fn c05(ctx: &mut Ctx) {
 fn c05_pass(ctx: &mut Ctx, spare: usize) {
     crate::model::set_spare(spare);
     let mut real = Real::new();
-    let maxd = if ctx.tier_thorough { 14 } else { 9 };
+    let maxd = if ctx.tier_thorough { 20 } else { 14 };
     let ops = ["DUP", "POP", "SWAP", "ROT", "YANK", "YANKDUP", "SHOVE", "FLUSH", "STACKDEPTH"];
     for (prefix, t, _) in STACK_TYPES.iter() {
         for op in ops.iter() {
